@@ -142,7 +142,7 @@ def build(case):
         # give the two innermost planets radii and put a twin next to the first planet so that a merger happens early
         p1 = parts[1]
         twin = dict(p1)
-        d = 0.02 * (abs(p1["x"]) + abs(p1["y"]) + abs(p1["z"]))
+        d = 0.02 * (abs(p1["x"]) + abs(p1["y"]) + abs(p1["z"])) or 0.02     # never on top of the planet
         twin["x"] += d
         twin["vx"] = p1["vx"] - 0.3 * abs(p1["vy"] + 1e-3) * 0.1
         twin["m"] = max(p1["m"], 1e-7) * 0.5
